@@ -249,7 +249,8 @@ def fit_cases(draw):
     kw = {}
     opt = draw(st.sampled_from(['default', 'default', 'step02', 'linear', 'mean',
                                 'median', 'nearest_neighbor', 'fix_center',
-                                'fix_pa', 'fix_eps', 'fix_maxit', 'range']))
+                                'fix_pa', 'fix_eps', 'fix_maxit', 'range',
+                                'fix_maxrit']))
     if opt == 'step02':
         kw['step'] = 0.2
     elif opt == 'linear':
@@ -261,6 +262,12 @@ def fit_cases(draw):
     elif opt == 'fix_maxit':
         kw[draw(st.sampled_from(['fix_center', 'fix_pa', 'fix_eps']))] = True
         kw['maxit'] = 12
+    elif opt == 'fix_maxrit':
+        # non-iterative extraction beyond maxrit, then the inward pass: the
+        # fixed parameter must stay fixed everywhere
+        kw[draw(st.sampled_from(['fix_center', 'fix_pa', 'fix_eps']))] = True
+        kw['maxrit'] = g['scale'] * 1.5
+        kw['maxsma'] = g['scale'] * 3.0
     elif opt == 'range':
         kw['minsma'] = draw(st.sampled_from([0.0, 2.0, 4.0, 0.3]))   # <= sma0
         kw['maxsma'] = draw(st.sampled_from([30.0, 40.0]))
